@@ -110,6 +110,7 @@ def u_append(ip):
     cfg = sym_config(ip, "c")
     old = m.f["_configs"].copy()
     old_ptr, old_start = m.f["_next_epoch_ptr"], m.f["_next_start_time"]
+    scalars0 = {k: v for k, v in m.f.items() if k != "_configs"}
     c.witness("configs", old)
     c.witness("config", cfg)
     c.cover("pre")
@@ -129,10 +130,12 @@ def u_append(ip):
         c.oblige("raises_only_runtime_error", res.cls == "RuntimeError")
         c.oblige("raises_only_if_invalid", Not(valid_ext(old, cfg)))
         c.oblige("raise_frame.length", new.length == old.length)
+        c.oblige("raise_frame.scalar_fields", all((m.f[k] is v) or (is_z3(v) and is_z3(m.f[k]) and m.f[k].eq(v)) for k, v in scalars0.items()) and set(m.f) == set(scalars0) | {"_configs"},
+                 fields=str(sorted(m.f)))
         for f in CFG_FIELDS:
             c.oblige(f"raise_frame.{f}", new.arrays[f] == old.arrays[f])
-    c.oblige("frame.ptr", m.f["_next_epoch_ptr"] == old_ptr)
-    c.oblige("frame.start", m.f["_next_start_time"] == old_start)
+    c.oblige("frame.ptr", m.f["_next_epoch_ptr"] == old_ptr, structural=True)
+    c.oblige("frame.start", m.f["_next_start_time"] == old_start, structural=True)
 
 
 def append_contract(ip, args, kwargs):
@@ -170,15 +173,15 @@ def u_next(ip):
         c.oblige("state.time_in_epoch", st.f["time_in_epoch"] == 0)
         for f in CFG_FIELDS:
             c.oblige(f"state.config.{f}", st.f["config"].f[f] == seq.field(f, ptr))
-        c.oblige("ptr_advanced", m.f["_next_epoch_ptr"] == ptr + 1)
-        c.oblige("start_advanced", m.f["_next_start_time"] == psum(seq)(ptr + 1))
-        c.oblige("rep_inv.ptr_range", And(m.f["_next_epoch_ptr"] >= 0, m.f["_next_epoch_ptr"] <= seq.length))
+        c.oblige("ptr_advanced", m.f["_next_epoch_ptr"] == ptr + 1, structural=True)
+        c.oblige("start_advanced", m.f["_next_start_time"] == psum(seq)(ptr + 1), structural=True)
+        c.oblige("rep_inv.ptr_range", And(m.f["_next_epoch_ptr"] >= 0, m.f["_next_epoch_ptr"] <= seq.length), structural=True)
     else:
         c.cover("raises")
         c.oblige("raises_only_runtime_error", res_cls(st) == "RuntimeError")
         c.oblige("raises_iff_exhausted", ptr >= seq.length)
-        c.oblige("raise_frame", And(m.f["_next_epoch_ptr"] == ptr, m.f["_next_start_time"] == start))
-    c.oblige("frame.configs", m.f["_configs"] is seq)
+        c.oblige("raise_frame", And(m.f["_next_epoch_ptr"] == ptr, m.f["_next_start_time"] == start), structural=True)
+    c.oblige("frame.configs", m.f["_configs"] is seq, structural=True)
 
 
 def res_cls(e):
@@ -228,14 +231,80 @@ def u_init(ip):
         q = z3.Int("pj")
         for f in CFG_FIELDS:
             c.oblige(f"holds_input.{f}", ForAll([q], Implies(And(q >= 0, q < cfgs.length), seq.field(f, q) == cfgs.field(f, q))))
-        c.oblige("ptr_zero", m.f["_next_epoch_ptr"] == 0)
-        c.oblige("start_zero", m.f["_next_start_time"] == 0)
+        c.oblige("ptr_zero", m.f["_next_epoch_ptr"] == 0, structural=True)
+        c.oblige("start_zero", m.f["_next_start_time"] == 0, structural=True)
     else:
         c.oblige("raises_only_runtime_error", res.cls == "RuntimeError")
         c.oblige("raises_only_if_invalid", Not(valid(cfgs)))
 
 
 WARMUP = "liesel/goose/warmup.py"
+
+
+def valid_ext_list(acc, cfg):
+    """Valid(acc ++ [cfg]) for a concrete-length list of accepted configs (statement's rules for the new last element)"""
+    ty, du, th = cfg.f["type"], cfg.f["duration"], cfg.f["thinning"]
+    return And(
+        (And(ty == INIT, du == 1) if not acc else ty != INIT),
+        du >= 1, th >= 1, th <= du,
+        Implies(ty == POST, du % th == 0),
+        Not(And(Or(*[a.f["type"] == POST for a in acc]) if acc else z3.BoolVal(False), is_warmup_spec(ty))),
+    )
+
+
+def observable_unit(interleave):
+    @unit(f"C16.observable.{interleave}", "C16", [f"{EPOCH}::EpochManager.__init__", f"{EPOCH}::EpochManager.append", f"{EPOCH}::EpochManager.next", f"{EPOCH}::EpochManager.has_more",
+                                                 f"{EPOCH}::EpochConfig.to_state"],
+          assumptions=["three append attempts with arbitrary (symbolic) configurations, each accepted or rejected; observation through the public methods only "
+                       "(independent of how the manager represents its state)"], max_paths=4000)
+    def u(ip, interleave=interleave):
+        """a manager built by the real constructor and driven through the public methods only: each append is accepted iff the accepted
+        configurations so far stay valid with it (RuntimeError otherwise); rejected attempts leave no trace: the epoch states handed out by
+        next() carry the accepted configurations in order, indices 0, 1, 2, ... and CONSECUTIVE start times (sum of the accepted earlier
+        durations); has_more() is true exactly while accepted epochs remain; next() raises RuntimeError when exhausted."""
+        c = ip.ctx
+        m = ip.call(ip.repo(f"{EPOCH}::EpochManager"), [[]], {})
+        acc, handed = [], 0
+
+        def do_next():
+            nonlocal handed
+            hm = ip.call(method(ip, m, "has_more"), [], {})
+            c.oblige(f"has_more_iff_epochs_remain.{handed}", ip.truth(hm) is (handed < len(acc)))
+            kind, st = try_call(ip, method(ip, m, "next"))
+            if handed < len(acc):
+                c.oblige(f"next_{handed}.returns", kind == "ok")
+                if kind == "ok":
+                    start = sum([a.f["duration"] for a in acc[:handed]], z3.IntVal(0))
+                    c.oblige(f"next_{handed}.config_is_accepted_config", st.f["config"] is acc[handed])
+                    c.oblige(f"next_{handed}.index", st.f["nth_epoch"] == handed)
+                    c.oblige(f"next_{handed}.start_time_consecutive", And(st.f["time_before_epoch"] == start, st.f["time"] == start, st.f["time_in_epoch"] == 0))
+                    handed += 1
+            else:
+                c.oblige("next_when_exhausted_raises_runtime_error", kind == "raise" and st.cls == "RuntimeError")
+
+        for i in range(3):
+            cfg = sym_config(ip, f"c{i}")
+            c.witness(f"c{i}", cfg)
+            ok = valid_ext_list(acc, cfg)
+            kind, res = try_call(ip, method(ip, m, "append"), [cfg])
+            c.oblige(f"append_{i}.accepted_iff_valid", ok if kind == "ok" else Not(ok))
+            if kind != "ok":
+                c.oblige(f"append_{i}.rejected_with_runtime_error", res.cls == "RuntimeError")
+            else:
+                acc.append(cfg)
+            if interleave == "interleaved":
+                do_next()
+        while handed < len(acc):
+            before = handed
+            do_next()
+            if handed == before:
+                break
+        do_next()
+    return u
+
+
+observable_unit("appends_first")
+observable_unit("interleaved")
 
 
 @unit("C16.stan_epochs", "C16", [f"{WARMUP}::stan_epochs"], assumptions=["S1 ints are mathematical"])
